@@ -25,18 +25,18 @@ typedef struct { uint8_t d[MCAP]; size_t n; } model;
 enum {
 	OpPush, OpPushZero, OpPop, OpPopNull, OpShift, OpShiftNull, OpUnshift,
 	OpPost, OpPre, OpCrop, OpGet, OpSet, OpSetZero, OpData, OpEmpty, OpFind,
-	OpAlign, OpResize, OpPrepare, OpString, OpLoad, OpSave, OpMsgGet, OpCount
+	OpAlign, OpResize, OpPrepare, OpString, OpLoad, OpSave, OpMsgGet, OpHuge, OpCount
 };
 static const char *opname[OpCount] = {
 	"qpush", "qpush0", "qpop", "qpopnull", "qshift", "qshiftnull", "qunshift",
 	"qpost", "qpre", "queue_crop", "queue_get", "queue_set", "queue_set0", "queue_data", "queue_empty", "queue_find",
-	"queue_align", "queue_resize", "queue_prepare", "queue_string", "queue_load", "queue_save", "message_get"
+	"queue_align", "queue_resize", "queue_prepare", "queue_string", "queue_load", "queue_save", "message_get", "huge_length"
 };
 static const char *apiname[OpCount] = {
 	"mpt_qpush", "mpt_qpush", "mpt_qpop", "mpt_qpop", "mpt_qshift", "mpt_qshift", "mpt_qunshift",
 	"mpt_qpost", "mpt_qpre", "mpt_queue_crop", "mpt_queue_get", "mpt_queue_set", "mpt_queue_set", "mpt_queue_data",
 	"mpt_queue_empty", "mpt_queue_find", "mpt_queue_align", "mpt_queue_resize", "mpt_queue_prepare", "mpt_queue_string",
-	"mpt_queue_load", "mpt_queue_save", "mpt_message_get"
+	"mpt_queue_load", "mpt_queue_save", "mpt_message_get", "queue functions (huge length)"
 };
 /* descriptor pair for load/save: a non-blocking pipe owned by the harness */
 static int pfd[2] = { -1, -1 };
@@ -426,6 +426,47 @@ static int apply(int op, MPT_STRUCT(queue) *q, model *m, size_t a, size_t b)
 		VF_CHECK(got == b, key(op, "length"), "%s: view covers %zu of %zu bytes", ctx, got, b);
 		accepted = 1;
 		break; }
+	case OpHuge: {
+		/* lengths and offsets near SIZE_MAX / SSIZE_MAX (a negative length that ended up in a size_t): every
+		 * function must refuse and leave the queue alone; a = which function, b = which magnitude */
+		static const char *fn[] = { "qpost", "qpre", "qpush", "qunshift", "qpop", "qshift", "crop-len", "crop-pos", "get-pos", "get-len", "set-pos", "msgget-pos", "msgget-len" };
+		size_t H;
+		uint8_t one = 0;
+		MPT_STRUCT(message) msg;
+		struct iovec cont;
+		long res = -1;
+		switch (b % 8) {
+		case 0: H = SIZE_MAX; break;
+		case 1: H = SIZE_MAX - 1 - (b / 8) % 40; break;
+		case 2: H = SIZE_MAX / 2; break;
+		case 3: H = SIZE_MAX / 2 + 1 + nfree + (b / 8) % 40; break;
+		case 4: H = SIZE_MAX - q->len + 1 + (b / 8) % 3; break;
+		case 5: H = SIZE_MAX - q->max + (b / 8) % 3; break;
+		case 6: H = (size_t) 1 << (20 + (b / 8) % 43); break;
+		default: H = SIZE_MAX - q->off; break;
+		}
+		a %= sizeof(fn) / sizeof(*fn);
+		if (H <= q->max + 8) break;   /* not huge for this queue */
+		snprintf(ctx, sizeof(ctx), "%s with %zu (SIZE_MAX-%zu) on %s", fn[a], H, SIZE_MAX - H, sd);
+		vf_log("%s", ctx);
+		switch (a) {
+		case 0: res = mpt_qpost(q, H); break;
+		case 1: res = mpt_qpre(q, H); break;
+		case 2: res = mpt_qpush(q, H, 0); break;
+		case 3: res = mpt_qunshift(q, H, 0); break;
+		case 4: res = mpt_qpop(q, H, 0) ? 0 : -1; break;
+		case 5: res = mpt_qshift(q, H, 0) ? 0 : -1; break;
+		case 6: res = mpt_queue_crop(q, 0, H); if (res >= 0) break; res = mpt_queue_crop(q, q->len ? 1 : 0, H); break;
+		case 7: res = mpt_queue_crop(q, H, 1); break;
+		case 8: res = mpt_queue_get(q, H, 1, &one); break;
+		case 9: res = mpt_queue_get(q, q->len ? 1 : 0, H, 0); break;
+		case 10: res = mpt_queue_set(q, H, 1, &one); break;
+		case 11: res = mpt_message_get(q, H, 1, &msg, &cont); break;
+		default: res = mpt_message_get(q, q->len ? 1 : 0, H, &msg, &cont); break;
+		}
+		VF_CHECK(res < 0, key(op, "accepted"), "%s: returned %ld", ctx, res);
+		vf_count("monitor:huge-length-refusals", 1);
+		break; }
 	case OpString: {
 		char *s = mpt_queue_string(q);
 		if (!nfree) {
@@ -494,6 +535,10 @@ static void case_exhaustive(uint64_t idx)
 	case OpData: case OpEmpty: case OpString: case OpSave:
 		run_fresh(op, max, off, len, 0, 0);
 		break;
+	case OpHuge:
+		for (size_t a = 0; a < 13; a++)
+			for (size_t b = 0; b < 24; b++) run_fresh(op, max, off, len, a, b);
+		break;
 	case OpLoad:
 		for (size_t a = 0; a <= max + 1; a++)
 			for (size_t b = 0; b <= max + 2; b++) run_fresh(op, max, off, len, a, b);
@@ -552,6 +597,9 @@ static void case_history(uint64_t idx, vf_rng *r)
 		case OpAlign:
 			a = vf_below(r, (uint32_t) q.max + 2);
 			break;
+		case OpHuge:
+			a = vf_below(r, 13); b = vf_below(r, 8 * 43);
+			break;
 		case OpLoad:
 			a = vf_chance(r, 1, 3) ? 0 : pick_len(r, &q);
 			b = vf_chance(r, 1, 2) ? pick_len(r, &q) : vf_below(r, (uint32_t) q.max + 40);
@@ -569,7 +617,7 @@ static void case_history(uint64_t idx, vf_rng *r)
 		}
 		if (!q.max && op != OpResize && op != OpPrepare) { op = OpPrepare; a = 1 + vf_below(r, 40); b = 0; }
 		int acc = apply(op, &q, &m, a, b);
-		if (acc && op != OpGet && op != OpData && op != OpEmpty && op != OpFind && op != OpMsgGet) mutating++;
+		if (acc && op != OpGet && op != OpData && op != OpEmpty && op != OpFind && op != OpMsgGet && op != OpHuge) mutating++;
 		if (acc && (op == OpLoad || op == OpSave) && q.max && (q.max - q.len) < q.off) vf_count("state:load-save-on-wrapped", 1);
 		if (q.max && q.len && (q.max - q.len) < q.off) wrapped = 1;
 		vf_fp_u64(((uint64_t) op << 48) ^ (a << 20) ^ b);
